@@ -141,4 +141,151 @@ theorem credValOK_of_p2f (H : RemHyp c w addrs own' (Y ++ [b])) (hKN : KeysNodup
 
 end asks
 
+-- ------------------------------------------------------------------ the combined store-level invariant
+
+theorem idsOf_occsFrom (bm : BlockMeta) : ∀ (ts : List Tx) (i : Nat), idsOf (occsFrom bm ts i) = ts.map (·.id) := by
+  intro ts
+  induction ts with
+  | nil => intro i; rfl
+  | cons t ts ih =>
+    intro i
+    show (occsFrom bm (t :: ts) i).map (fun oc => oc.t.id) = _
+    simp only [occsFrom, List.map_cons]
+    have := ih (i + 1)
+    unfold idsOf at this
+    rw [this]
+
+/-- the ids of the tip block of a chain with pairwise distinct ids are pairwise distinct -/
+theorem tip_ids_nodup {Y : List Block} {b : Block} (h : (idsOf (occs (Y ++ [b]))).Nodup) : (b.txs.map (·.id)).Nodup := by
+  have hsplit : idsOf (occs (Y ++ [b])) = idsOf (occs Y) ++ idsOf (occs [b]) := by
+    rw [occs_append]; unfold idsOf; rw [List.map_append]
+  rw [hsplit] at h
+  have h2 := (List.nodup_append.1 h).2.1
+  have e : idsOf (occs [b]) = b.txs.map (·.id) := by
+    show idsOf (List.flatMap occsOfBlock [b]) = _
+    simp only [List.flatMap_cons, List.flatMap_nil, List.append_nil]
+    exact idsOf_occsFrom _ _ _
+  rw [e] at h2
+  exact h2
+
+/-- **the combined invariant**: the two-store invariant with a floor, the pending-side invariant, and every pending
+    record is an allowed one (`A`: pending when the notification arrived, or a transaction of the stored chain) -/
+def P2P (c : Ctx) (w : Wid) (addrs : List Addr) (own' : Own) (fl : Nat) (A : TxId → Tx → Prop) (s : Store)
+    (X : List Block) : Prop :=
+  P2F c w addrs own' fl s X ∧ PCI c addrs s X ∧ ∀ id t, AMap.get s.pending id = some t → A id t
+
+section loops
+variable {c : Ctx} {w : Wid} {addrs : List Addr} {own' : Own} {fl : Nat} {A : TxId → Tx → Prop}
+
+theorem p2p_disc (hS : Static c w addrs own') {Y : List Block} {b : Block} (hV : ChainValid c.own (Y ++ [b]))
+    (hH : HeightsOK (Y ++ [b])) (hkn : ∀ y ∈ Y ++ [b], AMap.get c.node.known y.id = some y) {s : Store}
+    (hfl : fl < Y.length) (hA : ∀ t ∈ b.txs, A t.id t) (hP : P2P c w addrs own' fl A s (Y ++ [b])) :
+    ∃ s', disconnectBlock c s b.height = .ok s' ∧ P2P c w addrs own' fl A s' Y := by
+  obtain ⟨hF, hPCI, hAll⟩ := hP
+  obtain ⟨s', hd, hF'⟩ := p2f_disc hS hV hH hkn hfl hF
+  obtain ⟨g, k, hkfl, _, hG, hSub, hM⟩ := hF
+  have H : RemHyp c w addrs own' (Y ++ [b]) := ⟨hS.minus, hS.managed, hS.ne, hV, hH, hkn⟩
+  have hbh : b.height = Y.length := heightsOK_mid hH
+  have hkX : k + 1 ≤ (Y ++ [b]).length := by rw [List.length_append]; omega
+  have hsync : s.syncedTo = b.height := by
+    have := hM.syncedTo
+    have e : s.syncedTo + 1 = (Y ++ [b]).length := this
+    rw [List.length_append] at e
+    simp only [List.length_singleton] at e
+    omega
+  have hids := idsNodup hV
+  obtain ⟨hPCI', hpend⟩ := pci_disconnect_pend hPCI hd hsync (blockRecOK_of_p2f H hG.scan hSub hM)
+    (credValOK_of_p2f H hS.keys hkX hM) hids (tip_ids_nodup hids)
+  refine ⟨s', hd, hF', hPCI', ?_⟩
+  intro id t hg
+  rcases hpend id t hg with h | ⟨h1, h2⟩
+  · exact hAll id t h
+  · rw [← h2]; exact hA t h1
+
+theorem p2p_connect (hS : Static c w addrs own') (hgN : GoodChain c.node.chain) (hvN : ChainValid c.own c.node.chain)
+    (hknN : ∀ y ∈ c.node.chain, AMap.get c.node.known y.id = some y)
+    (hsame : ∀ b' ∈ c.node.chain, ∀ t' ∈ b'.txs, ∀ t, A t'.id t → t = t')
+    {s : Store} {h : Nat} {b : Block}
+    (hb : c.node.chain[h + 1]? = some b) (hP : P2P c w addrs own' fl A s (c.node.chain.take (h + 1))) :
+    ∃ s' conf, filterBlock c s (readyWallets s c.wallets) b = .ok (s', conf) ∧
+      P2P c w addrs own' fl A s' (c.node.chain.take (h + 2)) ∧ s'.status = s.status := by
+  obtain ⟨hF, hPCI, hAll⟩ := hP
+  obtain ⟨s', conf, hfb, hF', hst⟩ := p2f_connect hS hgN hvN hknN hb hF
+  obtain ⟨g, k, hkfl, hflX, hG, hSub, hM⟩ := hF
+  have hKN := hS.keys
+  have e : c.node.chain.take (h + 2) = c.node.chain.take (h + 1) ++ [b] := take_succ_of_get hb
+  have hlt : h + 1 < c.node.chain.length := (List.getElem?_eq_some_iff.1 hb).1
+  have hlen : (c.node.chain.take (h + 1)).length = h + 1 := by rw [List.length_take]; omega
+  have hbh : b.height = (c.node.chain.take (h + 1)).length := by rw [hlen]; exact hgN.heights _ _ hb
+  have hbmem : b ∈ c.node.chain := List.mem_of_getElem? hb
+  have H : RemHyp c w addrs own' (c.node.chain.take (h + 1)) :=
+    ⟨hS.minus, hS.managed, hS.ne, chainValid_take hvN _, heightsOK_take hgN.heights _,
+      fun y hy => hknN y (List.mem_of_mem_take hy)⟩
+  have hk : k + 1 ≤ (c.node.chain.take (h + 1)).length := by omega
+  -- the hypotheses of `pci_connect`
+  have hnr : (readyWallets g c.wallets).contains w = false := notReady_of_removed hG.flag rfl
+  have hrdy : readyWallets s c.wallets = readyWallets g c.wallets := readyWallets_congr hSub.status c.wallets
+  have hready : ∀ a w' ch, AMap.get c.own a = some (w', ch) → addrs.contains a = false →
+      (readyWallets s c.wallets).contains w' = true := by
+    intro a w' ch ha hs
+    rw [hrdy]
+    apply hG.allReady a w' ch
+    have hsub := ownR_sub hKN w a
+    rw [hsub, ha]
+    have hww : w' ≠ w := by
+      intro e'
+      rw [hS.managed] at hs
+      unfold isW at hs
+      rw [ha] at hs
+      simp [e'] at hs
+    simp [Option.filter, hww]
+  have hfresh : ∀ id, AMap.get s.txrecs (id, ⟨b.height, b.id⟩) = none := by
+    intro id
+    have hgf := (ghost_fresh H hKN hk hG.scan (bm := ⟨b.height, b.id⟩) hbh).txrecs id
+    rcases hSub.txrecs (id, ⟨b.height, b.id⟩) with h1 | h1
+    · rw [h1]; exact hgf
+    · exact h1
+  have hids : (idsOf (occs (c.node.chain.take (h + 1) ++ [b]))).Nodup := by
+    rw [← e]; exact idsNodup (chainValid_take hvN _)
+  have hPCI' := pci_connect hPCI hfb hready
+    (fun t' ht' t hg => hsame b hbmem t' ht' t (hAll _ t hg)) hfresh (tip_ids_nodup hids)
+  obtain ⟨fr, _⟩ := filterBlock_pfr c s s' (readyWallets s c.wallets) b conf hfb (fun u _ => hfresh u.id)
+    (tip_ids_nodup hids) hPCI.keyId (fun t' ht' t hg => hsame b hbmem t' ht' t (hAll _ t hg))
+  refine ⟨s', conf, hfb, ⟨hF', by rw [e]; exact hPCI', fun id t hg => hAll id t (fr.pend id t hg)⟩, hst⟩
+
+theorem p2p_connSpec (hS : Static c w addrs own') (hgN : GoodChain c.node.chain) (hvN : ChainValid c.own c.node.chain)
+    (hknN : ∀ y ∈ c.node.chain, AMap.get c.node.known y.id = some y)
+    (hsame : ∀ b' ∈ c.node.chain, ∀ t' ∈ b'.txs, ∀ t, A t'.id t → t = t') :
+    ConnSpec c (P2P c w addrs own' fl A) (fun _ => True) := by
+  have key : ∀ (d : Nat) (s : Store) (f B : Nat) (ready : List Wid) (added : List (Nat × List TxId)), B - f = d → f ≤ B →
+      B < c.node.chain.length → P2P c w addrs own' fl A s (c.node.chain.take (f + 1)) → ready = readyWallets s c.wallets →
+      ∃ s' added', connectAll c ready ((c.node.chain.take (B + 1)).drop (f + 1)) s added = .ok (s', added') ∧
+        P2P c w addrs own' fl A s' (c.node.chain.take (B + 1)) := by
+    intro d
+    induction d with
+    | zero =>
+      intro s f B ready added hd hfB _ hI _
+      have : f = B := by omega
+      subst this
+      refine ⟨s, added, ?_, hI⟩
+      rw [List.drop_take]; simp [connectAll]
+    | succ d ih =>
+      intro s f B ready added hd hfB hBl hI hr
+      have hx : c.node.chain[f + 1]? = some c.node.chain[f + 1] := List.getElem?_eq_getElem (by omega)
+      rw [seg_cons hx (by omega)]
+      obtain ⟨s1, conf, hfb, hI1, hst1⟩ := p2p_connect hS hgN hvN hknN hsame hx hI
+      obtain ⟨s2, added2, h2, hI2⟩ := ih s1 (f + 1) B ready (added ++ [(c.node.chain[f + 1].height, conf)]) (by omega)
+        (by omega) hBl hI1 (by rw [hr]; exact (readyWallets_congr hst1 c.wallets).symm)
+      refine ⟨s2, added2, ?_, hI2⟩
+      unfold connectAll
+      rw [hr, hfb]
+      simp only [M_ok_bind]
+      rw [← hr]
+      exact h2
+  intro s f B hfB hBl hI _
+  obtain ⟨s', added', h1, h2⟩ := key (B - f) s f B _ [] rfl hfB hBl hI rfl
+  exact ⟨s', added', h1, h2, trivial⟩
+
+end loops
+
 end MW.Lemmas.RemoveInterleave
